@@ -1,7 +1,7 @@
 /-
 Model of `internal/state/interval` (`map.go`): interval sets as sorted lists of half-open
 intervals `(begin, end)`.  The element type is `Int` (the Go code is generic over integer types and
-only compares).  `sort.Slice` is modelled by a stable merge sort on `begin`.
+only compares).  `sort.Slice` is modelled by a stable insertion sort on `begin`.
 
 Each function follows the Go loop, including the `cnt`/`j` index bookkeeping of
 `complement`/`MapComplement` and `intersect`/`MapIntersect`.
@@ -19,9 +19,17 @@ def addInterval (acc : List Intv) (i : Intv) : List Intv :=
     else if i.2 > last.2 then (last.1, i.2) :: rest
     else last :: rest
 
+/-- insertion into a list sorted by `begin`, after all elements with an equal `begin` -/
+def insertByBegin (x : Intv) : List Intv → List Intv
+  | [] => [x]
+  | y :: ys => if x.1 < y.1 then x :: y :: ys else y :: insertByBegin x ys
+
+/-- stable sort by `begin` (stands for `sort.Slice`) -/
+def sortByBegin (l : List Intv) : List Intv := l.foldl (fun acc x => insertByBegin x acc) []
+
 /-- `NewMap`: sort by begin, then the in-place compaction loop (which is `addInterval`) -/
 def newMap (l : List Intv) : List Intv :=
-  ((l.mergeSort (fun a b => a.1 ≤ b.1)).foldl addInterval []).reverse
+  ((sortByBegin l).foldl addInterval []).reverse
 
 /-- the merge loop of `MapUnion` -/
 def unionMerge : List Intv → List Intv → List Intv → List Intv
